@@ -467,6 +467,20 @@ def gen_module(ctx: Ctx, avail_modules: List[Unit], with_submodule=False):
         s.doc = ctx.doc()
         m.procs.append(s)
         m.interfaces.append(Interface("generic", "assignment(=)", modprocs=[s.name], doc=ctx.doc()))
+    # user-defined constructor: a generic interface named like a derived type of the module
+    ctor_types = [t for t in m.types if not t.access]  # (type and generic share the identifier: keep its accessibility unambiguous)
+    if rng.random() < 0.2 and ctor_types:
+        t = rng.choice(ctor_types)
+        if not any(it.kind == "generic" and (it.name or "").lower() == t.name.lower() for it in m.interfaces):
+            f = Proc("function", ctx.name("f"))
+            a1 = Var(ctx.name("a"), TypeSpec("integer"), intent="in", role="arg")
+            f.args = [a1]
+            f.arg_order = [a1.name]
+            f.result = Var(ctx.name("r"), TypeSpec("type", proto=t.name), role="result")
+            f.result_clause = True
+            f.doc = ctx.doc()
+            m.procs.append(f)
+            m.interfaces.append(Interface("generic", t.name, modprocs=[f.name], doc=ctx.doc()))
     # explicit interface block for external procedures
     if rng.random() < 0.25:
         ei = Interface("explicit")
